@@ -17,9 +17,9 @@ func runC18(c *Ctx) {
 		maxLines, depth = 3, 3
 	}
 	c.Exhaustive = true
-	c.Rule = fmt.Sprintf("all policy files of <= %d lines over a 9-line universe (p and g rules, padded fields, a comment, a blank, a quoted field, a short line) x all sequences of depth <= %d over {LoadFilteredPolicy, LoadIncrementalFilteredPolicy with 9 filters (per type, empty = wildcard, nil, longer than the rule, blank-padded values), LoadPolicy, SavePolicy, AddPolicy} on the real FilteredAdapter with real temp files: result, IsFiltered, listed rules, links, decisions and the file bytes after every call are compared with the Lean model; on the implementation: a filtered load lists exactly the full load's rules whose leading fields equal the filter's non-empty values, decisions equal those of a fresh enforcer given the subset, SavePolicy while filtered is refused and leaves the file bytes unchanged; non-trivial = a sequence with a filtered load that kept some and dropped some rules; distinct = (file, sequence)", maxLines, depth)
+	c.Rule = fmt.Sprintf("all policy files of <= %d lines over a 10-line universe (p and g rules, padded fields, a comment, a blank, a quoted field, a rule of the wrong arity which makes every load that keeps it fail) x all sequences of depth <= %d over {LoadFilteredPolicy, LoadIncrementalFilteredPolicy with 9 filters (per type, empty = wildcard, nil, longer than the rule, blank-padded values) and a value of the wrong type, LoadPolicy, SavePolicy, AddPolicy} on the real FilteredAdapter with real temp files: result, IsFiltered, listed rules, links, decisions and the file bytes after every call are compared with the Lean model; on the implementation: a filtered load lists exactly the full load's rules whose leading fields equal the filter's non-empty values, decisions equal those of a fresh enforcer given the subset, SavePolicy while filtered is refused and leaves the file bytes unchanged, SavePolicy never succeeds while the enforcer may hold a partial view (a filtered load, completed or failed, since the last successful full load); non-trivial = a sequence with a filtered load that kept some and dropped some rules; distinct = (file, sequence)", maxLines, depth)
 	lineUniverse := []string{"p, alice, data1, read", "p, bob, data2, write", "p,alice ,  data2,write", "g, alice, admin", "g, bob, admin",
-		"p, admin, data1, read", "# comment", "", "p, \"alice\", data3, read"}
+		"p, admin, data1, read", "# comment", "", "p, \"alice\", data3, read", "p, carol, data1"}
 	filters := []struct {
 		f   *fileadapter.Filter
 		nil bool
@@ -38,6 +38,7 @@ func runC18(c *Ctx) {
 	for _, f := range filters {
 		alpha = append(alpha, EOp{Kind: "loadf", Filter: f.f, NilFilter: f.nil}, EOp{Kind: "loadif", Filter: f.f, NilFilter: f.nil})
 	}
+	alpha = append(alpha, EOp{Kind: "loadf", BadFilter: true}, EOp{Kind: "loadif", BadFilter: true})
 	alpha = append(alpha, EOp{Kind: "load"}, EOp{Kind: "savefa"}, EOp{Kind: "add", Sec: "p", PType: "p", Rule: []string{"zed", "data9", "read"}})
 	probes := []EOp{{Kind: "obs", Args: []string{"pol", "p", "p"}}, {Kind: "obs", Args: []string{"pol", "g", "g"}}, {Kind: "obs", Args: []string{"fatext"}},
 		{Kind: "haslink", PType: "g", Args: []string{"alice", "admin"}}, {Kind: "enf", Req: []V{VS("alice"), VS("data1"), VS("read")}}, {Kind: "enf", Req: []V{VS("bob"), VS("data1"), VS("read")}}}
@@ -72,8 +73,10 @@ func runC18(c *Ctx) {
 			cfg.Depth = 1 // quick: sequences of two calls on every fourth file only
 		}
 		var before []byte
+		var histObs []string
 		cfg.AfterStep = func(c *Ctx, s *Sess, hist []EOp, obs string) {
 			last := hist[len(hist)-1]
+			histObs = append(histObs[:len(hist)-1], obs)
 			if last.Kind == "savefa" && strings.HasPrefix(obs, "err") {
 				now, _ := os.ReadFile(s.FAPath)
 				if before != nil && string(now) != string(before) {
@@ -82,6 +85,24 @@ func runC18(c *Ctx) {
 			}
 			if last.Kind == "savefa" && strings.HasSuffix(obs, "F=1") && strings.HasPrefix(obs, "ok") {
 				c.Direct("SavePolicy succeeded while the policy is filtered", fmt.Sprintf("file=%q %s", text, histText(hist)))
+			}
+			// the enforcer may hold a partial view from the first filtered load (completed or not)
+			// until a full load succeeds; no save may go through in between
+			partial := true // NewFilteredAdapter: nothing loaded yet
+			for i, h := range hist {
+				if i == len(hist)-1 {
+					break
+				}
+				o := histObs[i]
+				switch {
+				case h.Kind == "load" && strings.HasPrefix(o, "ok"), (h.Kind == "loadf" || h.Kind == "loadif") && h.NilFilter && strings.HasPrefix(o, "ok"):
+					partial = false
+				case (h.Kind == "loadf" || h.Kind == "loadif") && !h.NilFilter:
+					partial = true
+				}
+			}
+			if last.Kind == "savefa" && strings.HasPrefix(obs, "ok") && partial {
+				c.Direct("SavePolicy went through although no full load has succeeded since the last filtered load: a partial view overwrote the policy file", fmt.Sprintf("file=%q %s", text, histText(hist)))
 			}
 			before, _ = os.ReadFile(s.FAPath)
 			if last.Kind == "loadf" && strings.HasPrefix(obs, "ok") && !last.NilFilter && !quotedFile {
